@@ -788,3 +788,88 @@ def fsm_extract(body, state_adt_pat, dispatch_pat=r"^discr\(std::mem::replace\("
                     stack.append((s, last))
             out[arm] = rec
     return out
+
+
+# ---------------------------------------------------------------------------- panic-capable site inventory (K10)
+PANIC_CALLEES = [
+    (r"(^|::)(Option|Result)::(unwrap|expect|unwrap_err|expect_err)$", "unwrap"),
+    (r"ops::Index(Mut)?>::index(_mut)?$|ops::Index(Mut)?::index(_mut)?$", "index"),
+    (r"panicking::(panic|panic_fmt|panic_display|unreachable_display|assert_failed)|rt::panic_fmt|panic_explicit|begin_panic", "panic"),
+    (r"(Bytes|BytesMut)::(split_to|split_off|advance|truncate_unchecked)$|Buf>::advance$|Buf::advance$|Buf>::copy_to_slice$|Buf::get_u\d+", "buf"),
+    (r"slice::<impl \[T\]>::(copy_from_slice|split_at|split_at_mut|swap|clone_from_slice)$|::copy_from_slice$|::split_at$", "slice"),
+    (r"Vec::(remove|insert|swap_remove|drain|split_off)$|VecDeque::(remove|insert)$", "vecidx"),
+    (r"str::<impl str>::(split_at)$|String::(remove|insert|truncate|split_off)$", "str"),
+    (r"RefCell::(borrow|borrow_mut)$", "refcell"),
+    (r"Duration::(from_secs_f|mul_f|div_f)|Instant::(sub|add)$|Add<.*Duration>>::add$|Sub<.*Duration>>::sub$|time::Instant as std::ops::(Add|Sub)", "time"),
+]
+
+
+def panic_sites(body, include_overflow=False):
+    """Panic-capable sites of one body: list of (kind, detail, Site)."""
+    out = []
+    for bi in sorted(body.live):
+        t = body.blocks[bi]["term"]
+        if not t:
+            continue
+        if t["k"] == "assert":
+            m = t["msg"]
+            if m.startswith("overflow") and not include_overflow:
+                continue
+            if m.startswith("resumed") or m in ("misaligned", "nullptr"):
+                continue
+            out.append(("assert:" + m.split(":")[0], m, Site(body, bi)))
+        elif t["k"] == "call":
+            if t.get("x", "").startswith("m:") and t["x"].split(":")[1] in ("debug_assert", "debug_assert_eq", "debug_assert_ne"):
+                continue
+            name = strip_generics(body.call_name(t))
+            decl = strip_generics(t.get("fn", name))
+            for pat, kind in PANIC_CALLEES:
+                if re.search(pat, name) or re.search(pat, decl):
+                    # unwrap on infallible expect messages is still counted; macro-generated formatting is not
+                    if kind == "panic" and t.get("x", "").startswith("m:") and "debug_assert" in t.get("x", ""):
+                        break
+                    out.append((kind, name.split("::")[-1] if kind != "index" else "index", Site(body, bi)))
+                    break
+    return out
+
+
+def panic_inventory(prog, crate, entry_bodies, depth=2):
+    """Inventory over the entry bodies, their closures/coroutines and workspace-local callees up to `depth`."""
+    seen = {}
+    work = [(b, 0) for b in entry_bodies]
+    by_path = {b.npath: b for b in prog.bodies(crate)}
+    while work:
+        b, d = work.pop()
+        if b.npath in seen:
+            continue
+        seen[b.npath] = b
+        for ch in prog.children(b):
+            work.append((ch, d))
+        if d < depth:
+            for s in b.call_sites():
+                n = strip_generics(b.call_name(s.term))
+                if n in by_path:
+                    work.append((by_path[n], d + 1))
+    inv = []
+    for b in seen.values():
+        for k, det, s in panic_sites(b):
+            inv.append((b, k, det, s))
+    return inv, sorted(seen)
+
+
+def check_inventory(ctx, rule, name, inv, ceilings, bodies):
+    """Counts per kind must not exceed the ceilings confirmed by reading (dict kind -> (max, reason))."""
+    counts = {}
+    for b, k, det, s in inv:
+        counts.setdefault(k, []).append((b, det, s))
+    for b in bodies:
+        ctx.bodies.add(b)
+    for k, lst in sorted(counts.items()):
+        mx, why = ceilings.get(k, (0, "no panic-capable site of this kind was present when the rule was written"))
+        ok = len(lst) <= mx
+        where = lst[0][2].loc() if lst else ""
+        ctx.ob(rule, "%s: panic-capable `%s` sites <= %d" % (name, k, mx), ok, where,
+               "%d site(s) [%s]; allowed %d because: %s" % (len(lst), ", ".join("%s@%s" % (d, s.loc().split("/")[-1]) for _, d, s in lst[:8]), mx, why))
+    ctx.ob(rule, "%s: inventory computed" % name, True, msg="%d panic-capable sites in %d bodies: %s" %
+           (len(inv), len(bodies), {k: len(v) for k, v in counts.items()}), nontrivial=False)
+    return counts
